@@ -288,6 +288,10 @@ impl Array8 {
             .map_err(insufficient_data("aux_count"))?; // always 0
 
         // Read byte array from offset HLL_BYTE_ARR_START
+        // Check the length first: the block is not allocated for an image that cannot hold it
+        if cursor.remaining() < k {
+            return Err(Error::insufficient_data("data"));
+        }
         let mut data = vec![0u8; k];
         // The register block is present whether or not the COMPACT flag is set (for
         // HLL arrays the flag only concerns the form of the Hll4 exception list).
